@@ -114,7 +114,7 @@ static void writer_phase(rng_t *r, const char *path, int threaded, int big) {
             d.signal_id = pick_id(r, sigs, nsig);
             d.source_id = rng_chance(r, 3, 4) ? (nsrc ? srcs[rng_below(r, (uint64_t) nsrc)] : 0) : pick_id(r, srcs, nsrc);
             d.signal_type = rng_chance(r, 9, 10) ? (uint8_t) rng_below(r, 2) : (uint8_t) rng_below(r, 256);
-            d.data_type = rng_chance(r, 9, 10) ? DTYPES[rng_below(r, 15)].code : (rng_chance(r, 1, 2) ? (uint32_t) rng_u64(r) : (DTYPES[rng_below(r, 15)].code | (uint32_t) (rng_below(r, 40) << 16)));
+            d.data_type = rng_chance(r, 9, 10) ? DTYPES[rng_below(r, 15)].code : (rng_chance(r, 1, 3) ? (uint32_t) rng_u64(r) : rng_chance(r, 1, 2) ? (uint32_t) (rng_below(r, 8) | (rng_below(r, 3) << 16)) /* zero width */ : (DTYPES[rng_below(r, 15)].code | (uint32_t) (rng_below(r, 40) << 16)));
             d.sample_rate = rng_chance(r, 4, 5) ? 1000 : pick_u32(r);
             int extreme = rng_chance(r, 1, 4), hugeblock = 0;
             d.samples_per_data = extreme ? pick_u32(r) : (uint32_t) rng_below(r, 300);
